@@ -1453,4 +1453,585 @@ theorem mainRun_nofuel (data : List Char) (vm fm : Option (List Char → Bool)) 
     rw [h] at he
     exact this he
 
+
+/-! ## name selection -/
+
+theorem starM_iff (cs : Cs) (k : Nat → List Char → Bool) : ∀ (s : List Char) (i : Nat),
+    starM cs k i s = true ↔
+      ∃ n, n ≤ s.length ∧ (∀ c ∈ s.take n, cs.accepts c = true) ∧ k (i + n) (s.drop n) = true := by
+  intro s
+  induction s with
+  | nil =>
+    intro i
+    simp only [starM, List.length_nil, Nat.le_zero_eq, List.take_nil, List.not_mem_nil, false_imp_iff, implies_true,
+      List.drop_nil, true_and]
+    constructor
+    · intro h; exact ⟨0, rfl, by simpa using h⟩
+    · rintro ⟨n, rfl, h⟩; simpa using h
+  | cons c s ih =>
+    intro i
+    simp only [starM, Bool.or_eq_true, Bool.and_eq_true, ih]
+    constructor
+    · rintro (h | ⟨hc, n, hn, hall, hk⟩)
+      · exact ⟨0, by simp, by simp, by simpa using h⟩
+      · refine ⟨n + 1, by simp; omega, ?_, ?_⟩
+        · intro d hd
+          simp only [List.take_succ_cons, List.mem_cons] at hd
+          rcases hd with rfl | hd
+          · exact hc
+          · exact hall d hd
+        · have : i + (n + 1) = i + 1 + n := by omega
+          simpa [this] using hk
+    · rintro ⟨n, hn, hall, hk⟩
+      cases n with
+      | zero => left; simpa using hk
+      | succ n =>
+        right
+        refine ⟨hall c (by simp), n, by simp at hn; omega, ?_, ?_⟩
+        · intro d hd; exact hall d (by simp [hd])
+        · have : i + (n + 1) = i + 1 + n := by omega
+          simpa [this] using hk
+
+/-- the regular-expression items of one element of a simple pattern -/
+def itemRes : Cs × Rep → List Re
+  | (cs, .one) => [.ch cs]
+  | (cs, .star) => [.star cs]
+  | (cs, .plus) => [.ch cs, .star cs]
+  | (cs, .opt) => [.alt (.ch cs) .eps]
+
+/-- the first `n` characters of `s` are a run for the element `(cs, r)` -/
+def Run (cs : Cs) (r : Rep) (s : List Char) (n : Nat) : Prop :=
+  n ≤ s.length ∧ r.allows n = true ∧ ∀ c ∈ s.take n, cs.accepts c = true
+
+theorem item_iff (cs : Cs) (r : Rep) (tail : List Re) (i : Nat) (s : List Char) (k : Nat → List Char → Bool) :
+    (seqOf (itemRes (cs, r) ++ tail)).m i s k = true ↔
+      ∃ n, Run cs r s n ∧ (seqOf tail).m (i + n) (s.drop n) k = true := by
+  cases r with
+  | one =>
+    simp only [itemRes, List.singleton_append, seqOf, Re.m, Run, Rep.allows]
+    cases s with
+    | nil =>
+      simp only [Bool.false_eq_true, false_iff]
+      rintro ⟨n, ⟨hn, h1, _⟩, _⟩
+      simp at hn h1; omega
+    | cons c s =>
+      simp only [Bool.and_eq_true]
+      constructor
+      · rintro ⟨hc, hk⟩
+        exact ⟨1, ⟨by simp, by simp, by simpa using hc⟩, by simpa using hk⟩
+      · rintro ⟨n, ⟨hn, h1, hall⟩, hk⟩
+        have : n = 1 := by simpa using h1
+        subst this
+        exact ⟨hall c (by simp), by simpa using hk⟩
+  | star =>
+    simp only [itemRes, List.singleton_append, seqOf, Re.m, Run, Rep.allows, true_and]
+    rw [starM_iff]
+    constructor
+    · rintro ⟨n, hn, hall, hk⟩; exact ⟨n, ⟨hn, hall⟩, hk⟩
+    · rintro ⟨n, ⟨hn, hall⟩, hk⟩; exact ⟨n, hn, hall, hk⟩
+  | plus =>
+    simp only [itemRes, List.cons_append, List.nil_append, seqOf, Re.m, Run, Rep.allows]
+    cases s with
+    | nil =>
+      simp only [Bool.false_eq_true, false_iff]
+      rintro ⟨n, ⟨hn, h1, _⟩, _⟩
+      simp at hn h1; omega
+    | cons c s =>
+      simp only [Bool.and_eq_true, starM_iff]
+      constructor
+      · rintro ⟨hc, n, hn, hall, hk⟩
+        refine ⟨n + 1, ⟨by simp; omega, by simp, ?_⟩, ?_⟩
+        · intro d hd
+          simp only [List.take_succ_cons, List.mem_cons] at hd
+          rcases hd with rfl | hd
+          · exact hc
+          · exact hall d hd
+        · have : i + (n + 1) = i + 1 + n := by omega
+          simpa [this] using hk
+      · rintro ⟨n, ⟨hn, h1, hall⟩, hk⟩
+        cases n with
+        | zero => simp at h1
+        | succ n =>
+          refine ⟨hall c (by simp), n, by simp at hn; omega, ?_, ?_⟩
+          · intro d hd; exact hall d (by simp [hd])
+          · have : i + (n + 1) = i + 1 + n := by omega
+            simpa [this] using hk
+  | opt =>
+    simp only [itemRes, List.singleton_append, seqOf, Re.m, Run, Rep.allows, Bool.or_eq_true]
+    constructor
+    · rintro (h | h)
+      · cases s with
+        | nil => simp at h
+        | cons c s =>
+          simp only [Bool.and_eq_true] at h
+          exact ⟨1, ⟨by simp, by simp, by simpa using h.1⟩, by simpa using h.2⟩
+      · exact ⟨0, ⟨by simp, by simp, by simp⟩, by simpa using h⟩
+    · rintro ⟨n, ⟨hn, h1, hall⟩, hk⟩
+      have h1' : n ≤ 1 := by simpa using h1
+      cases n with
+      | zero => right; simpa using hk
+      | succ n =>
+        have : n = 0 := by omega
+        subst this
+        left
+        cases s with
+        | nil => simp at hn
+        | cons c s =>
+          simp only [Bool.and_eq_true]
+          exact ⟨hall c (by simp), by simpa using hk⟩
+
+theorem matchSimple_cons_iff (cs : Cs) (r : Rep) (p : Simple) (s : List Char) :
+    matchSimple ((cs, r) :: p) s = true ↔ ∃ n, Run cs r s n ∧ matchSimple p (s.drop n) = true := by
+  simp only [matchSimple, List.any_eq_true, List.mem_range, Bool.and_eq_true, List.all_eq_true, Run]
+  constructor
+  · rintro ⟨n, hn, ⟨h1, hall⟩, hm⟩; exact ⟨n, ⟨by omega, h1, hall⟩, hm⟩
+  · rintro ⟨n, ⟨hn, h1, hall⟩, hm⟩; exact ⟨n, by omega, ⟨h1, hall⟩, hm⟩
+
+theorem seqOf_append_m (a b : List Re) : ∀ (i : Nat) (s : List Char) (k : Nat → List Char → Bool),
+    (seqOf (a ++ b)).m i s k = (seqOf a).m i s (fun i' s' => (seqOf b).m i' s' k) := by
+  induction a with
+  | nil => intro i s k; simp [seqOf, Re.m]
+  | cons r a ih =>
+    intro i s k
+    simp only [List.cons_append, seqOf, Re.m]
+    congr 1
+    funext i' s'
+    exact ih i' s' k
+
+theorem altOf_m (rs : List Re) (hne : rs ≠ []) (i : Nat) (s : List Char) (k : Nat → List Char → Bool) :
+    (altOf rs).m i s k = rs.any (fun r => r.m i s k) := by
+  induction rs with
+  | nil => exact absurd rfl hne
+  | cons r rs ih =>
+    cases rs with
+    | nil => simp [altOf]
+    | cons r2 rs =>
+      simp only [altOf, Re.m, List.any_cons]
+      rw [ih (by simp)]
+      simp [List.any_cons]
+
+/-- a simple pattern followed by `$`, matched against a name without newline, is the whole-name match of the spec -/
+theorem simple_eol_m (p : Simple) : ∀ (i : Nat) (s : List Char), '\n' ∉ s →
+    (seqOf (p.flatMap itemRes ++ [.eol])).m i s (fun _ _ => true) = matchSimple p s := by
+  induction p with
+  | nil =>
+    intro i s hs
+    simp only [List.flatMap_nil, List.nil_append, seqOf, Re.m, matchSimple, Bool.and_true]
+    cases s with
+    | nil => simp
+    | cons c s =>
+      have : (c :: s == ['\n']) = false := by
+        apply Bool.eq_false_iff.mpr
+        intro h
+        have := eq_of_beq h
+        simp only [List.cons.injEq] at this
+        exact hs (by simp [this.1])
+      simp [this]
+  | cons it p ih =>
+    intro i s hs
+    obtain ⟨cs, r⟩ := it
+    rw [Bool.eq_iff_iff, List.flatMap_cons, List.append_assoc, item_iff, matchSimple_cons_iff]
+    constructor
+    · rintro ⟨n, hr, hm⟩
+      refine ⟨n, hr, ?_⟩
+      rw [← ih (i + n) (s.drop n) (fun h => hs (List.mem_of_mem_drop h))]; exact hm
+    · rintro ⟨n, hr, hm⟩
+      refine ⟨n, hr, ?_⟩
+      rw [ih (i + n) (s.drop n) (fun h => hs (List.mem_of_mem_drop h))]; exact hm
+
+/-! ### the parser on the strings `build_regex_string` builds -/
+
+theorem parseFrom_append (a b : List Char) : ∀ st : PState,
+    parseFrom st (a ++ b) = (parseFrom st a).bind fun st' => parseFrom st' b := by
+  induction a with
+  | nil => intro st; simp [parseFrom]
+  | cons c a ih =>
+    intro st
+    simp only [List.cons_append, parseFrom]
+    cases step st c with
+    | none => simp
+    | some st' => exact ih st'
+
+theorem special_not_alnum (c : Char) (h : isSpecial c = true) : isAlnum c = false := by
+  simp only [isSpecial, specials, List.contains_cons, List.contains_nil, Bool.or_false, Bool.or_eq_true, beq_iff_eq] at h
+  rcases h with h | h | h | h | h | h | h | h | h | h | h | h | h | h <;> subst h <;> decide +kernel
+
+theorem not_special (c : Char) (h : isSpecial c = false) :
+    c ≠ '.' ∧ c ≠ '^' ∧ c ≠ '$' ∧ c ≠ '*' ∧ c ≠ '+' ∧ c ≠ '?' ∧ c ≠ '{' ∧ c ≠ '}' ∧ c ≠ '[' ∧ c ≠ ']' ∧ c ≠ '\\' ∧
+      c ≠ '|' ∧ c ≠ '(' ∧ c ≠ ')' := by
+  simp only [isSpecial, specials, List.contains_cons, List.contains_nil, Bool.or_false, Bool.or_eq_false_iff,
+    beq_eq_false_iff_ne] at h
+  obtain ⟨h1, h2, h3, h4, h5, h6, h7, h8, h9, h10, h11, h12, h13, h14⟩ := h
+  exact ⟨h1, h2, h3, h4, h5, h6, h7, h8, h9, h10, h11, h12, h13, h14⟩
+
+theorem cs_parse (cs : Cs) (top : Frame) (stack : List Frame) :
+    parseFrom ⟨.normal, top, stack⟩ (renderCs cs) = some ⟨.normal, top.push (.ch cs), stack⟩ := by
+  cases cs with
+  | any => simp [renderCs, parseFrom, step]
+  | lit c =>
+    simp only [renderCs]
+    split
+    · rename_i h
+      have := special_not_alnum c h
+      simp [parseFrom, step, this]
+    · rename_i h
+      have h' : isSpecial c = false := by simpa using h
+      obtain ⟨h1, h2, h3, h4, h5, h6, h7, h8, h9, h10, h11, h12, h13, h14⟩ := not_special c h'
+      simp [parseFrom, step, *]
+
+theorem rep_parse (cs : Cs) (r : Rep) (top : Frame) (stack : List Frame) :
+    parseFrom ⟨.normal, top.push (.ch cs), stack⟩ (renderRep r) =
+      some ⟨.normal, { top with cur := top.cur ++ itemRes (cs, r) }, stack⟩ := by
+  cases r <;> simp [renderRep, parseFrom, step, applyPostfix, Frame.push, itemRes]
+
+theorem simple_parse (stack : List Frame) (p : Simple) : ∀ top : Frame,
+    parseFrom ⟨.normal, top, stack⟩ (renderSimple p) =
+      some ⟨.normal, { top with cur := top.cur ++ p.flatMap itemRes }, stack⟩ := by
+  induction p with
+  | nil => intro top; simp [renderSimple, parseFrom]
+  | cons it p ih =>
+    intro top
+    obtain ⟨cs, r⟩ := it
+    have : renderSimple ((cs, r) :: p) = renderCs cs ++ (renderRep r ++ renderSimple p) := by
+      simp [renderSimple]
+    rw [this, parseFrom_append, cs_parse, Option.bind_some, parseFrom_append, rep_parse, Option.bind_some, ih]
+    simp
+
+/-- the branches of an alternation read into a frame whose current branch already holds `cur0` -/
+def branches (cur0 : List Re) : List Simple → List Re
+  | [] => [seqOf cur0]
+  | p :: ps => seqOf (cur0 ++ p.flatMap itemRes) :: ps.map fun p => seqOf (p.flatMap itemRes)
+
+theorem alts_parse (stack : List Frame) (ps : List Simple) (hne : ps ≠ []) : ∀ top : Frame,
+    ∃ top', parseFrom ⟨.normal, top, stack⟩ (joinBar (ps.map renderSimple)) = some ⟨.normal, top', stack⟩ ∧
+      top'.neg = top.neg ∧ top'.alts ++ [seqOf top'.cur] = top.alts ++ branches top.cur ps := by
+  induction ps with
+  | nil => exact absurd rfl hne
+  | cons p ps ih =>
+    intro top
+    cases ps with
+    | nil =>
+      refine ⟨{ top with cur := top.cur ++ p.flatMap itemRes }, ?_, rfl, ?_⟩
+      · simp [joinBar, simple_parse]
+      · simp [branches]
+    | cons q ps =>
+      obtain ⟨top', h1, h2, h3⟩ := ih (by simp)
+        { top with alts := top.alts ++ [seqOf (top.cur ++ p.flatMap itemRes)], cur := [] }
+      refine ⟨top', ?_, h2, ?_⟩
+      · simp only [List.map_cons, joinBar] at h1 ⊢
+        rw [parseFrom_append, simple_parse, Option.bind_some]
+        simp only [parseFrom, step]
+        simpa using h1
+      · rw [h3]; simp [branches]
+
+/-- the pattern text before the optional inversion: `^tok$` or `^(?:tok|tok|…)$` -/
+def coreStr (ps : List Simple) : List Char :=
+  match ps with
+  | [p] => '^' :: renderSimple p ++ ['$']
+  | _ => '^' :: (['(', '?', ':'] ++ joinBar (ps.map renderSimple) ++ [')']) ++ ['$']
+
+/-- what it parses to -/
+def coreRe (ps : List Simple) : Re :=
+  match ps with
+  | [p] => seqOf (.bol :: p.flatMap itemRes ++ [.eol])
+  | _ => seqOf [.bol, altOf (ps.map fun p => seqOf (p.flatMap itemRes)), .eol]
+
+theorem core_parse (ps : List Simple) (hne : ps ≠ []) (neg : Bool) (stack : List Frame) :
+    ∃ top', parseFrom ⟨.normal, ⟨neg, [], []⟩, stack⟩ (coreStr ps) = some ⟨.normal, top', stack⟩ ∧
+      top'.neg = neg ∧ top'.re = coreRe ps := by
+  match ps, hne with
+  | [p], _ =>
+    refine ⟨⟨neg, [], .bol :: p.flatMap itemRes ++ [.eol]⟩, ?_, rfl, ?_⟩
+    · simp only [coreStr, List.cons_append, parseFrom, step, Char.reduceEq, ↓reduceIte, Frame.push, List.nil_append]
+      rw [parseFrom_append, simple_parse]
+      simp [parseFrom, step, Frame.push]
+    · simp [Frame.re, coreRe, altOf]
+  | p :: q :: ps, _ =>
+    obtain ⟨top', h1, h2, h3⟩ := alts_parse (⟨neg, [], [.bol]⟩ :: stack) (p :: q :: ps) (by simp) ⟨false, [], []⟩
+    refine ⟨⟨neg, [], [.bol, altOf ((p :: q :: ps).map fun p => seqOf (p.flatMap itemRes)), .eol]⟩, ?_, rfl, ?_⟩
+    · simp only [coreStr, List.cons_append, List.nil_append, List.append_assoc, parseFrom, step, Char.reduceEq,
+        ↓reduceIte, Frame.push]
+      rw [parseFrom_append, h1]
+      simp only [Option.bind_some, parseFrom, step, Char.reduceEq, ↓reduceIte, Frame.re, h3, h2, Frame.push]
+      simp [branches]
+    · simp [Frame.re, coreRe, altOf]
+
+theorem core_match (ps : List Simple) (hne : ps ≠ []) (name : List Char) (hn : '\n' ∉ name) :
+    (coreRe ps).m 0 name (fun _ _ => true) = ps.any (matchSimple · name) := by
+  match ps, hne with
+  | [p], _ =>
+    simp only [coreRe, List.cons_append, seqOf, Re.m, beq_self_eq_true, Bool.true_and, List.any_cons, List.any_nil,
+      Bool.or_false]
+    exact simple_eol_m p 0 name hn
+  | p :: q :: ps, _ =>
+    simp only [coreRe, seqOf, Re.m, beq_self_eq_true, Bool.true_and]
+    rw [altOf_m _ (by simp)]
+    rw [List.any_map]
+    congr 1
+    funext p'
+    simp only [Function.comp]
+    have := seqOf_append_m (p'.flatMap itemRes) [.eol] 0 name (fun _ _ => true)
+    simp only [seqOf, Re.m] at this
+    rw [← simple_eol_m p' 0 name hn, this]
+
+theorem renderCs_ne_nil (cs : Cs) : renderCs cs ≠ [] := by
+  cases cs with
+  | any => simp [renderCs]
+  | lit c => simp only [renderCs]; split <;> simp
+
+theorem renderSimple_ne_nil (p : Simple) (h : p ≠ []) : renderSimple p ≠ [] := by
+  cases p with
+  | nil => exact absurd rfl h
+  | cons it p =>
+    intro hr
+    simp only [renderSimple, List.flatMap_cons, List.append_eq_nil_iff] at hr
+    exact renderCs_ne_nil it.1 hr.1.1
+
+theorem build_simple (ps : List Simple) (hne : ps ≠ []) (hp : ∀ p ∈ ps, p ≠ []) (inv : Bool) :
+    buildRegexString (ps.map renderSimple) inv =
+      some (if inv then ['(', '?', '!'] ++ coreStr ps ++ [')'] else coreStr ps) := by
+  have hf : (ps.map renderSimple).filter (· ≠ []) = ps.map renderSimple := by
+    rw [List.filter_eq_self]
+    intro t ht
+    obtain ⟨p, hp', rfl⟩ := List.mem_map.mp ht
+    simpa using renderSimple_ne_nil p (hp p hp')
+  unfold buildRegexString
+  simp only [hf]
+  match ps, hne with
+  | [p], _ => simp [coreStr]
+  | p :: q :: ps, _ => simp [coreStr]
+
+theorem parse_build (ps : List Simple) (hne : ps ≠ []) (inv : Bool) :
+    parseRe (if inv then ['(', '?', '!'] ++ coreStr ps ++ [')'] else coreStr ps) =
+      some (if inv then seqOf [.neg (coreRe ps)] else coreRe ps) := by
+  cases inv with
+  | false =>
+    obtain ⟨top', h1, _, h3⟩ := core_parse ps hne false []
+    simp only [Bool.false_eq_true, ↓reduceIte, parseRe, h1, h3]
+  | true =>
+    obtain ⟨top', h1, h2, h3⟩ := core_parse ps hne true [⟨false, [], []⟩]
+    simp only [↓reduceIte, parseRe, List.cons_append, List.nil_append, parseFrom, step, Char.reduceEq]
+    rw [parseFrom_append, h1]
+    simp only [Frame.re] at h3
+    simp [parseFrom, step, h2, h3, Frame.push, Frame.re, altOf]
+
+/-- **`build_regex_string(...).match` is whole-name matching of the tokens**, on names without newline -/
+theorem mkMatcher_selects (ps : List Simple) (hp : ∀ p ∈ ps, p ≠ []) (inv : Bool) :
+    ∃ m, mkMatcher (ps.map renderSimple) inv = .ok m ∧
+      ∀ name, '\n' ∉ name → applyMatch m name = (!ps.isEmpty && selects (ps.map fun p => [p]) inv name) := by
+  cases hps : ps with
+  | nil => exact ⟨none, by simp [mkMatcher], by intro name _; simp [applyMatch]⟩
+  | cons p0 ps0 =>
+    have hne : ps ≠ [] := by simp [hps]
+    rw [← hps]
+    refine ⟨some (if inv then seqOf [.neg (coreRe ps)] else coreRe ps).matches, ?_, ?_⟩
+    · unfold mkMatcher
+      have : ps.map renderSimple ≠ [] := by simpa using hne
+      simp only [this, ↓reduceIte, build_simple ps hne hp inv, parse_build ps hne inv]
+    · intro name hn
+      have hsel : selects (ps.map fun p => [p]) inv name = (inv != ps.any (matchSimple · name)) := by
+        simp [selects, List.any_map, matchToken, Function.comp_def]
+      have hemp : ps.isEmpty = false := by simp [hps]
+      rw [hsel, hemp]
+      simp only [applyMatch, Bool.not_false, Bool.true_and]
+      cases inv with
+      | false => simp only [Bool.false_eq_true, ↓reduceIte, Re.matches, core_match ps hne name hn]; simp
+      | true =>
+        simp only [↓reduceIte, Re.matches, seqOf, Re.m, core_match ps hne name hn, Bool.and_true]
+        cases ps.any (matchSimple · name) <;> rfl
+
+theorem literal_render (name : List Char) (h : ∀ c ∈ name, isSpecial c = false) : renderSimple (literal name) = name := by
+  induction name with
+  | nil => rfl
+  | cons c cs ih =>
+    have hc := h c (by simp)
+    have := ih (fun d hd => h d (by simp [hd]))
+    simp only [renderSimple, literal, List.map_cons, List.flatMap_cons, renderCs, renderRep] at this ⊢
+    simp [hc, this]
+
+theorem literal_match (name s : List Char) : matchSimple (literal name) s = decide (s = name) := by
+  induction name generalizing s with
+  | nil => cases s <;> simp [literal, matchSimple]
+  | cons c cs ih =>
+    rw [Bool.eq_iff_iff]
+    simp only [literal, List.map_cons, decide_eq_true_eq]
+    rw [matchSimple_cons_iff]
+    constructor
+    · rintro ⟨n, ⟨hn, h1, hall⟩, hm⟩
+      have : n = 1 := by simpa [Rep.allows] using h1
+      subst this
+      cases s with
+      | nil => simp at hn
+      | cons d s =>
+        have hd := hall d (by simp)
+        simp only [Cs.accepts, beq_iff_eq] at hd
+        have := ih (s := s)
+        simp only [literal] at this
+        simp only [List.drop_succ_cons, List.drop_zero, this, decide_eq_true_eq] at hm
+        rw [hd, hm]
+    · rintro rfl
+      refine ⟨1, ⟨by simp, by simp [Rep.allows], by simp [Cs.accepts]⟩, ?_⟩
+      have := ih (s := cs)
+      simp only [literal] at this
+      simp [this]
+
+/-! ### the names the scanner reports contain no newline -/
+
+theorem skipWhile_all (p : Char → Bool) (b : Buf) (pos r : Nat) (h : skipWhile p b pos = some r) :
+    ∀ j, pos ≤ j → j < r → ∃ c, b[j]? = some c ∧ p c = true := by
+  fun_induction skipWhile p b pos with
+  | case1 pos hlt hp ih =>
+    intro j h1 h2
+    by_cases hj : j = pos
+    · subst hj; exact ⟨b[j], by simp [hlt], hp⟩
+    · exact ih h j (by omega) h2
+  | case2 pos hlt hp => intro j h1 h2; simp at h; omega
+  | case3 pos hge => simp at h
+
+theorem slice_mem (b : Buf) (i j : Nat) (c : Char) (h : c ∈ slice b i j) : ∃ k, i ≤ k ∧ k < j ∧ b[k]? = some c := by
+  unfold slice at h
+  obtain ⟨n, hn⟩ := List.mem_iff_getElem?.mp h
+  rw [List.getElem?_drop, List.getElem?_take] at hn
+  split at hn
+  · exact ⟨i + n, by omega, by omega, hn⟩
+  · cases hn
+
+theorem name_no_newline (b : Buf) (q : Char → Bool) (hq : q '\n' = false) (ns ne : Nat)
+    (h : skipWhile q b ns = some ne) : '\n' ∉ slice b ns ne := by
+  intro hm
+  obtain ⟨k, h1, h2, h3⟩ := slice_mem b ns ne '\n' hm
+  obtain ⟨c, hc, hqc⟩ := skipWhile_all q b ns ne h k h1 h2
+  rw [h3] at hc
+  cases hc
+  rw [hq] at hqc
+  cases hqc
+
+theorem isEnvvar_name (b : Buf) (pos ns ne np : Nat) (h : isEnvvar b pos = some (ns, ne, np)) :
+    '\n' ∉ slice b ns ne := by
+  unfold isEnvvar at h
+  cases h1 : skipWhile (oneOf " \t") b pos with
+  | none => simp only [h1, Option.bind_eq_bind, Option.bind_none, Option.bind_some, reduceCtorEq] at h
+  | some start =>
+    cases h2 : skipWhile (fun c => !oneOf "\x00\"'()- \t\n=" c) b start with
+    | none => simp only [h1, h2, Option.bind_eq_bind, Option.bind_none, Option.bind_some, reduceCtorEq] at h
+    | some p =>
+      simp only [h1, h2, Option.bind_eq_bind, Option.bind_some] at h
+      split at h
+      · split at h
+        · simp at h
+        · simp only [Option.some.injEq, Prod.mk.injEq] at h
+          obtain ⟨rfl, rfl, rfl⟩ := h
+          exact name_no_newline b _ (by decide) _ _ h2
+      · simp at h
+
+theorem isFunction_name (b : Buf) (pos ns ne np : Nat) (h : isFunction b pos = some (ns, ne, np)) :
+    '\n' ∉ slice b ns ne := by
+  unfold isFunction at h
+  cases h1 : skipWhile (oneOf " \t") b pos with
+  | none => simp only [h1, Option.bind_eq_bind, Option.bind_none, Option.bind_some, reduceCtorEq] at h
+  | some p1 =>
+    simp only [h1, Option.bind_eq_bind, Option.bind_some] at h
+    generalize hp2 : (if slice b p1 (p1 + 8) = "function".toList then
+        (match b[p1 + 8]? with
+         | some c => if isSpace c then p1 + 9 else p1
+         | none => p1)
+      else p1) = p2 at h
+    cases h3 : skipWhile isSpace b p2 with
+    | none => simp only [h3, Option.bind_eq_bind, Option.bind_none, Option.bind_some, reduceCtorEq] at h
+    | some p3 =>
+      simp only [h3, Option.bind_some] at h
+      cases h4 : skipWhile (fun c => !oneOf "\x00 \t\n=\"'()" c) b p3 with
+      | none => simp only [h4, Option.bind_eq_bind, Option.bind_none, Option.bind_some, reduceCtorEq] at h
+      | some p4 =>
+        simp only [h4, Option.bind_some] at h
+        split at h
+        · simp at h
+        · cases h5 : skipWhile (oneOf " \t") b p4 with
+          | none => simp only [h5, Option.bind_eq_bind, Option.bind_none, Option.bind_some, reduceCtorEq] at h
+          | some p5 =>
+            simp only [h5, Option.bind_some] at h
+            split at h
+            · simp at h
+            · cases h6 : skipWhile (oneOf " \t") b (p5 + 1) with
+              | none => simp only [h6, Option.bind_eq_bind, Option.bind_none, Option.bind_some, reduceCtorEq] at h
+              | some p6 =>
+                simp only [h6, Option.bind_some] at h
+                split at h
+                · simp at h
+                · cases h7 : skipWhile isSpace b (p6 + 1) with
+                  | none => simp only [h7, Option.bind_eq_bind, Option.bind_none, Option.bind_some, reduceCtorEq] at h
+                  | some p7 =>
+                    simp only [h7, Option.bind_some] at h
+                    split at h
+                    · simp at h
+                    · simp only [Option.some.injEq, Prod.mk.injEq] at h
+                      obtain ⟨rfl, rfl, _⟩ := h
+                      exact name_no_newline b _ (by decide) _ _ h4
+
+theorem scopeLoop_names (n : Nat) : ∀ (emit : Bool) (b : Buf) (vm fm : Option (List Char → Bool)) (e : Char)
+    (s : ScopeState) (r : ScopeResult), scopeLoop n emit b vm fm e s = .ok r →
+    (∀ st ∈ s.stmts, '\n' ∉ st.name) → ∀ st ∈ r.stmts, '\n' ∉ st.name := by
+  induction n with
+  | zero => intro emit b vm fm e s r h; rw [scopeLoop] at h; cases h
+  | succ n ih =>
+    intro emit b vm fm e s r h hs
+    rw [scopeLoop] at h
+    have hfin : ∀ s : ScopeState, (finishScope emit b e s).stmts = s.stmts := by
+      intro s; unfold finishScope; split <;> rfl
+    split at h
+    · simp only [Except.ok.injEq] at h; rw [← h, hfin]; exact hs
+    · split at h
+      · simp only [Except.ok.injEq] at h; rw [← h, hfin]; exact hs
+      · simp only [] at h
+        have hst : (flushWindow emit s).stmts = s.stmts := by unfold flushWindow; split <;> rfl
+        generalize flushWindow emit s = s' at h hst
+        rw [← hst] at hs
+        split at h
+        · exact ih _ _ _ _ _ _ _ h (by simpa using hs)
+        · split at h
+          · obtain ⟨p, hp, h⟩ := bind_ok h
+            exact ih _ _ _ _ _ _ _ h (by simpa using hs)
+          · split at h
+            · rename_i ns ne np hf
+              obtain ⟨sr, hsr, h⟩ := bind_ok h
+              refine ih _ _ _ _ _ _ _ h ?_
+              intro st hst'
+              simp only [List.mem_append, List.mem_singleton] at hst'
+              rcases hst' with hst' | rfl
+              · exact hs st hst'
+              · exact isFunction_name b s'.pos ns ne np hf
+            · split at h
+              · obtain ⟨p, hp, h⟩ := bind_ok h
+                exact ih _ _ _ _ _ _ _ h (by simpa using hs)
+              · rename_i ns ne np hv
+                have hv' := isEnvvar_name b s'.pos ns ne np hv
+                split at h
+                · simp only [Except.ok.injEq] at h
+                  rw [← h]
+                  intro st hst'
+                  simp only [List.mem_append, List.mem_singleton] at hst'
+                  rcases hst' with hst' | rfl
+                  · exact hs st hst'
+                  · exact hv'
+                · obtain ⟨p, hp, h⟩ := bind_ok h
+                  refine ih _ _ _ _ _ _ _ h ?_
+                  intro st hst'
+                  simp only [List.mem_append, List.mem_singleton] at hst'
+                  rcases hst' with hst' | rfl
+                  · exact hs st hst'
+                  · exact hv'
+
+theorem mainRun_names (data : List Char) (vm fm : Option (List Char → Bool)) (out : List Char) (r : ScopeResult)
+    (h : mainRun data vm fm = .ok (out, r)) : ∀ st ∈ r.stmts, '\n' ∉ st.name := by
+  unfold mainRun at h
+  simp only [] at h
+  split at h
+  · rename_i r' hr
+    simp only [Except.ok.injEq, Prod.mk.injEq] at h
+    obtain ⟨_, rfl⟩ := h
+    have hfuel : fuelFor (data ++ ['\x00']) = (6 * (data ++ ['\x00']).length + 15) + 1 := by unfold fuelFor; omega
+    rw [hfuel, processScope] at hr
+    exact scopeLoop_names _ _ _ vm fm _ _ r' hr (by simp)
+  · cases h
+
 end Pkgcore.C34
